@@ -38,6 +38,13 @@ def run(ctx: Ctx):
     n = 20000 if ctx.thorough else 2000
     taus = {v: make_taus(v) for v in VERSIONS}
     check_translator(ctx, taus)
+    # what the calling program logs is inert (shared stream harness/logmode.py)
+    import logmode
+    bl_ = rng.uniform(0.0, np.pi / 2, 600); bl_[:3] = [0.0, np.radians(0.05), np.radians(42.0)]
+    ll_ = rng.uniform(6.0, 12.0, 600)
+    for v_ in VERSIONS:
+        logmode.check(ctx, f"Taus.tau_exit_prob [v{v_}]", lambda v_=v_: (np.asarray(make_taus(v_).tau_exit_prob(bl_.copy(), ll_.copy())),),
+                      {"version": v_, "events": 600})
     for v in VERSIONS:
         raw, (gE, gB), names = raw_pexit(v)
         flo = np.where(raw <= 0, FLOOR, raw)
